@@ -87,17 +87,25 @@ theorem decStr_eq (n : Nat) : decStr n = Nat.toDigits 10 n := by
       rw [Nat.toDigits_of_base_le (by omega) (by omega), ← ih (n / 10) (by omega), digitChar_eq _ (Nat.mod_lt _ (by omega))]
       rfl
 
-/-- how a plain integer setting may be written: optional `+`, white space around it -/
+/-- how a plain integer setting may be written: optional `+`, leading zeros, a `.0…0` suffix, white space around it
+    (pydantic also drops single underscores between digits; that spelling is tied, not proved) -/
 structure LaxSp where
   wsL : Str := []
   wsR : Str := []
   plus : Bool := false
+  zeros : Nat := 0
+  frac : Nat := 0
   deriving DecidableEq, Repr
 
 def LaxSp.WF (ls : LaxSp) : Prop := (∀ c ∈ ls.wsL, isWsInt c = true) ∧ (∀ c ∈ ls.wsR, isWsInt c = true)
 
+/-- `.000` with `k` zeros (nothing for `k = 0`) -/
+def fracStr (k : Nat) : Str := if k = 0 then [] else '.' :: List.replicate k '0'
+
+def laxBody (ls : LaxSp) (n : Nat) : Str := List.replicate ls.zeros '0' ++ Nat.toDigits 10 n ++ fracStr ls.frac
+
 def laxCore (ls : LaxSp) (z : Int) : Str :=
-  (if z < 0 then ['-'] else if ls.plus then ['+'] else []) ++ Nat.toDigits 10 z.natAbs
+  (if z < 0 then ['-'] else if ls.plus then ['+'] else []) ++ laxBody ls z.natAbs
 
 def laxText (ls : LaxSp) (z : Int) : Str := ls.wsL ++ laxCore ls z ++ ls.wsR
 
@@ -141,9 +149,33 @@ theorem isWsInt_false_of_range {c : Char} (h : 33 ≤ c.toNat ∧ c.toNat < 128)
     | true => have := isUniSpace_ge hu; omega
   simp [isWsInt, h1, h2]
 
+theorem laxBody_chars (ls : LaxSp) (n : Nat) : ∀ c ∈ laxBody ls n, c.isDigit = true ∨ c = '.' := by
+  intro c hc
+  unfold laxBody fracStr at hc
+  simp only [List.mem_append] at hc
+  rcases hc with (hc | hc) | hc
+  · left; rw [(List.mem_replicate.mp hc).2]; decide
+  · left; exact Config.toDigits10_isDigit _ c hc
+  · split at hc
+    · simp at hc
+    · rcases List.mem_cons.mp hc with rfl | hc
+      · right; rfl
+      · left; rw [(List.mem_replicate.mp hc).2]; decide
+
+theorem laxBody_head (ls : LaxSp) (n : Nat) : ∃ b bt, laxBody ls n = b :: bt ∧ b.isDigit = true := by
+  unfold laxBody
+  cases hz : ls.zeros with
+  | zero =>
+    cases hd : Nat.toDigits 10 n with
+    | nil => exact absurd hd Nat.toDigits_ne_nil
+    | cons b bt =>
+      exact ⟨b, bt ++ fracStr ls.frac, by simp, Config.toDigits10_isDigit n b (by rw [hd]; simp)⟩
+  | succ k => exact ⟨'0', List.replicate k '0' ++ Nat.toDigits 10 n ++ fracStr ls.frac, by simp [List.replicate_succ], by decide⟩
+
 theorem laxCore_props (ls : LaxSp) (z : Int) : laxCore ls z ≠ [] ∧ ∀ c ∈ laxCore ls z, isWsInt c = false := by
   constructor
-  · unfold laxCore; simp [Nat.toDigits_ne_nil]
+  · obtain ⟨b, bt, hb, _⟩ := laxBody_head ls z.natAbs
+    unfold laxCore; rw [hb]; simp
   · intro c hc
     unfold laxCore at hc
     simp only [List.mem_append] at hc
@@ -153,57 +185,127 @@ theorem laxCore_props (ls : LaxSp) (z : Int) : laxCore ls z ≠ [] ∧ ∀ c ∈
       · split at hc
         · simp at hc; subst hc; decide
         · simp at hc
-    · have := isDigit_lt (Config.toDigits10_isDigit _ c hc)
-      exact isWsInt_false_of_range (by omega)
+    · rcases laxBody_chars ls _ c hc with h | rfl
+      · have := isDigit_lt h
+        exact isWsInt_false_of_range (by omega)
+      · decide
 
 open Gallia.Config in
-/-- pydantic's lax `str -> int` reads every integer back from its decimal text with optional `+` -/
-theorem parseLaxInt_core (ls : LaxSp) (z : Int) : parseLaxInt (laxCore ls z) = some z := by
-  obtain ⟨hz, hd, hu, hj⟩ := laxSteps_decimal z.natAbs
-  have hdig := toDigits10_isDigit z.natAbs
-  have hws : ∀ c ∈ Nat.toDigits 10 z.natAbs, Config.isWs c = false := fun c hc => (isDigit_not_special c (hdig c hc)).2.2.2.2
-  obtain ⟨c, t, e⟩ : ∃ c t, Nat.toDigits 10 z.natAbs = c :: t := by
-    cases h : Nat.toDigits 10 z.natAbs with
-    | nil => exact absurd h Nat.toDigits_ne_nil
-    | cons c t => exact ⟨c, t, rfl⟩
-  have hc := isDigit_not_special c (hdig c (by rw [e]; simp))
-  have hcm : c ≠ '-' := by simpa using hc.2.2.1
-  have hcp : c ≠ '+' := by simpa using hc.2.2.2.1
-  have hjs : jsonInt (c :: t) = some (Int.ofNat z.natAbs) := by
-    rw [e] at hj
+theorem skipZeros_zeros (k : Nat) (rest : Str) : skipZeros '0' (List.replicate k '0' ++ rest) = skipZeros '0' rest := by
+  induction k with
+  | zero => rfl
+  | succ k ih =>
+    simp only [List.replicate_succ, List.cons_append, skipZeros]
+    simpa using ih
+
+open Gallia.Config in
+theorem stripLeadingZeros_zeros (k n f : Nat) :
+    stripLeadingZeros (List.replicate k '0' ++ Nat.toDigits 10 n ++ fracStr f) = some (Nat.toDigits 10 n ++ fracStr f) := by
+  have hdig := toDigits10_isDigit n
+  by_cases hn : n = 0
+  · subst hn
+    have e : Nat.toDigits 10 0 = ['0'] := by decide
+    rw [e]
+    have : List.replicate k '0' ++ ['0'] ++ fracStr f = '0' :: (List.replicate k '0' ++ fracStr f) := by
+      have : List.replicate k '0' ++ ['0'] = '0' :: List.replicate k '0' := by
+        rw [← List.replicate_succ', List.replicate_succ]
+      rw [this]; rfl
+    rw [this]
+    simp only [stripLeadingZeros, beq_self_eq_true, if_true]
+    rw [skipZeros_zeros]
+    unfold fracStr
+    split
+    · rfl
+    · simp [skipZeros, isNzDigit]
+  · obtain ⟨c, t, e, h0, _, _, _⟩ := toDigits_head_b 10 (by omega) (by omega) n (by omega)
+    have hc : c.isDigit = true := hdig c (by rw [e]; simp)
+    have hne : c ≠ '0' := by simpa using h0
+    have hnz : isNzDigit c = true := by simp [isNzDigit, hc, hne]
+    have hus : (c == '_') = false := (isDigit_not_special c hc).2.1
+    rw [e]
+    cases k with
+    | zero => simp [stripLeadingZeros, h0, hnz]
+    | succ k =>
+      simp only [List.replicate_succ, List.cons_append, stripLeadingZeros, beq_self_eq_true, if_true]
+      rw [List.append_assoc, skipZeros_zeros]
+      simp [skipZeros, h0, hus, hnz]
+
+open Gallia.Config in
+theorem stripDecimalZeros_frac (n f : Nat) : stripDecimalZeros (Nat.toDigits 10 n ++ fracStr f) = Nat.toDigits 10 n := by
+  have hdig := toDigits10_isDigit n
+  have hdot : ∀ c ∈ Nat.toDigits 10 n, (c != '.') = true := fun c hc => (isDigit_not_special c (hdig c hc)).1
+  unfold fracStr
+  split
+  · simp [stripDecimalZeros, Config.dropWhile_all _ _ hdot]
+  · rename_i hf
+    unfold stripDecimalZeros
+    have h1 : (Nat.toDigits 10 n ++ '.' :: List.replicate f '0').dropWhile (· != '.') = '.' :: List.replicate f '0' := by
+      rw [Gallia.Parse.dropWhile_all_append _ _ hdot]; simp [List.dropWhile]
+    have h2 : (Nat.toDigits 10 n ++ '.' :: List.replicate f '0').takeWhile (· != '.') = Nat.toDigits 10 n :=
+      Gallia.Parse.takeWhile_stop _ _ '.' _ hdot (by decide)
+    simp only [h1, h2]
+    have : (List.replicate f '0').isEmpty = false := by cases f with | zero => exact absurd rfl hf | succ f => rfl
+    simp [this]
+
+open Gallia.Config in
+theorem parseLaxInt_body (body X D : Str) (n : Nat) (b : Char) (bt : Str) (hb : body = b :: bt) (hbm : b ≠ '-') (hbp : b ≠ '+')
+    (hws : ∀ c ∈ body, Config.isWs c = false) (hz : stripLeadingZeros body = some X)
+    (hd : stripUnderscores (stripDecimalZeros X) = D) (hj : jsonNat D = some n) (hD : ∀ t, D ≠ '-' :: t) :
+    parseLaxInt body = some (Int.ofNat n) ∧ parseLaxInt ('+' :: body) = some (Int.ofNat n) ∧
+    parseLaxInt ('-' :: body) = some (-(Int.ofNat n)) := by
+  have hjs : jsonInt D = some (Int.ofNat n) := by
     unfold jsonInt
     split
-    · rename_i t' heq
-      injection heq with h1 _
-      exact absurd h1 hcm
+    · rename_i t; exact absurd rfl (hD t)
     · simp [hj]
+  have s0 : strip body = body := strip_noWs _ hws
+  have s1 : strip ('+' :: body) = '+' :: body :=
+    strip_noWs _ (by intro x hx; rcases List.mem_cons.mp hx with rfl | hx; decide; exact hws x hx)
+  have s2 : strip ('-' :: body) = '-' :: body :=
+    strip_noWs _ (by intro x hx; rcases List.mem_cons.mp hx with rfl | hx; decide; exact hws x hx)
+  refine ⟨?_, ?_, ?_⟩
+  · unfold parseLaxInt
+    simp only [s0]
+    rw [hb] at hz ⊢
+    simp [hbp, hbm, hz, hd, hjs]
+  · unfold parseLaxInt
+    simp only [s1]
+    rw [hb] at hz ⊢
+    simp [hbp, hbm, hz, hd, hjs]
+  · unfold parseLaxInt
+    simp only [s2]
+    rw [hb] at hz ⊢
+    simp [hbp, hbm, hz, hd, jsonInt, hj]
+
+open Gallia.Config in
+/-- pydantic's lax `str -> int` reads every integer back from its decimal text with optional `+`, leading zeros, `.0…0` -/
+theorem parseLaxInt_core (ls : LaxSp) (z : Int) : parseLaxInt (laxCore ls z) = some z := by
+  obtain ⟨_, _, hu, hj⟩ := laxSteps_decimal z.natAbs
+  obtain ⟨b, bt, hb, hbd⟩ := laxBody_head ls z.natAbs
+  have hbs := isDigit_not_special b hbd
+  have hbm : b ≠ '-' := by simpa using hbs.2.2.1
+  have hbp : b ≠ '+' := by simpa using hbs.2.2.2.1
+  have hws : ∀ c ∈ laxBody ls z.natAbs, Config.isWs c = false := by
+    intro c hc
+    rcases laxBody_chars ls _ c hc with h | rfl
+    · exact (isDigit_not_special c h).2.2.2.2
+    · decide
+  have hD : ∀ t, Nat.toDigits 10 z.natAbs ≠ '-' :: t := by
+    intro t e
+    have := toDigits10_isDigit z.natAbs '-' (by rw [e]; simp)
+    exact absurd this (by decide)
+  have key := parseLaxInt_body (laxBody ls z.natAbs) _ (Nat.toDigits 10 z.natAbs) z.natAbs b bt hb hbm hbp hws
+    (stripLeadingZeros_zeros ls.zeros z.natAbs ls.frac) (by rw [stripDecimalZeros_frac, hu]) hj hD
   unfold laxCore
   by_cases hneg : z < 0
-  · simp only [hneg, if_true]
-    have hs : strip ('-' :: Nat.toDigits 10 z.natAbs) = '-' :: Nat.toDigits 10 z.natAbs :=
-      strip_noWs _ (by intro x hx; rcases List.mem_cons.mp hx with rfl | hx; decide; exact hws x hx)
-    unfold parseLaxInt
-    simp only [List.cons_append, List.nil_append, hs]
-    rw [e] at hz hd hu hj ⊢
-    simp [hcp, hcm, hz, hd, hu, jsonInt, hj]
-    omega
+  · simp only [hneg, if_true, List.cons_append, List.nil_append]
+    rw [key.2.2]; congr 1; simp only [Int.ofNat_eq_natCast]; omega
   · simp only [hneg, if_false]
     by_cases hp : ls.plus = true
-    · simp only [hp, if_true]
-      have hs : strip ('+' :: Nat.toDigits 10 z.natAbs) = '+' :: Nat.toDigits 10 z.natAbs :=
-        strip_noWs _ (by intro x hx; rcases List.mem_cons.mp hx with rfl | hx; decide; exact hws x hx)
-      unfold parseLaxInt
-      simp only [List.cons_append, List.nil_append, hs]
-      rw [e] at hz hd hu hj ⊢
-      simp [hcp, hcm, hz, hd, hu, hjs]
-      omega
+    · simp only [hp, if_true, List.cons_append, List.nil_append]
+      rw [key.2.1]; congr 1; simp only [Int.ofNat_eq_natCast]; omega
     · simp only [hp, Bool.false_eq_true, if_false, List.nil_append]
-      have hs : strip (Nat.toDigits 10 z.natAbs) = Nat.toDigits 10 z.natAbs := strip_noWs _ hws
-      unfold parseLaxInt
-      simp only [hs]
-      rw [e] at hz hd hu hj ⊢
-      simp [hcp, hcm, hz, hd, hu, hjs]
-      omega
+      rw [key.1]; congr 1; simp only [Int.ofNat_eq_natCast]; omega
 
 /-- a plain `int` setting written in decimal, with an optional `+` and any white space pydantic trims, is read back -/
 theorem plainInt_laxText (ls : LaxSp) (h : ls.WF) (z : Int) : plainInt (laxText ls z) = some z := by
@@ -214,7 +316,7 @@ theorem plainInt_laxText (ls : LaxSp) (h : ls.WF) (z : Int) : plainInt (laxText 
 theorem plainInt_decStr (n : Nat) : plainInt (decStr n) = some (n : Int) := by
   have := plainInt_laxText {} ⟨by simp, by simp⟩ (n : Int)
   have hn : ¬ ((n : Int) < 0) := by omega
-  simpa [laxText, laxCore, decStr_eq, hn] using this
+  simpa [laxText, laxCore, laxBody, fracStr, decStr_eq, hn] using this
 
 /-- the query parameters the HSFZ discoverer writes: addresses in any notation, `ack_timeout` in decimal -/
 def hsfzArgs (s1 : Spelling) (src : Int) (s2 : Spelling) (dst : Int) (ack : Option Nat) : Args :=
